@@ -53,9 +53,19 @@ static off_t c57_lseek(int, off_t off, int) { c57_seekPos = off; return off; }
 
 // ---------------------------------------------------------------- environment (same stubs as C55_storemap.cc)
 StatCounters statCounter;
+// base/TextException.cc is not linked: finalizeOrFree() calls ex.what() (only to log it), and the real what() formats its
+// text through std::ostringstream and an unordered_multimap cache, which the engine does not model. Message text is
+// outside the claim; throwing/catching is unaffected (constructor, type and base class are the real header's).
+TextException::TextException(SBuf message, const SourceLocation &location): TextException(message.c_str(), location) {}
+TextException::~TextException() throw() {}
+std::ostream &TextException::print(std::ostream &os) const { return os; }
+const char *TextException::what() const throw() { return "exception"; }
+std::ostream &operator <<(std::ostream &os, const TextException &) { return os; }
+std::ostream &CurrentException(std::ostream &os) { return os; }
+std::ostream &CurrentExceptionExtra(std::ostream &os) { return os; }
 int opt_store_doublecheck = 1;   // squid -S: validateOneSlot() runs for every slot
 int opt_foreground_rebuild = 1;  // no "pause after 50 ms" logic (wall-clock independent)
-namespace Store { Controller &Root() { static char fake[sizeof(void *) * 4]; return *reinterpret_cast<Controller *>(fake); } }
+namespace Store { Controller &Root() { alignas(16) static char fake[sizeof(void *) * 4]; return *reinterpret_cast<Controller *>(fake); } }
 bool Store::Controller::markedForDeletion(const cache_key *) const { return false; } // nothing is being deleted while indexing
 
 struct SegRec { char name[64]; void *mem; off_t size; };
@@ -84,12 +94,38 @@ void *Ipc::Mem::Segment::reserve(size_t chunkSize)
     return result;
 }
 
+#ifdef VF_BITCODE
+// libstdc++ out-of-line pieces reached only by the AsyncJob/IndependentRunner constructors registering the job
+// (AllJobs() is an unordered_set, TheRunners a std::set). Any bucket count is functionally correct, so the model grows
+// when the load would exceed 1; the tree insert links the node without rebalancing (colour is unobservable).
+namespace std {
+void _Rb_tree_insert_and_rebalance(const bool left, _Rb_tree_node_base *x, _Rb_tree_node_base *p, _Rb_tree_node_base &header) throw()
+{
+    x->_M_parent = p; x->_M_left = nullptr; x->_M_right = nullptr; x->_M_color = _S_red;
+    if (left) {
+        p->_M_left = x; // also makes leftmost = x when p is the header
+        if (p == &header) { header._M_parent = x; header._M_right = x; }
+        else if (p == header._M_left) header._M_left = x;
+    } else {
+        p->_M_right = x;
+        if (p == header._M_right) header._M_right = x;
+    }
+}
+namespace __detail {
+size_t _Prime_rehash_policy::_M_next_bkt(size_t n) const { return n < 13 ? 13 : 2 * n + 1; }
+pair<bool, size_t> _Prime_rehash_policy::_M_need_rehash(size_t nBkt, size_t nElt, size_t nIns) const
+{ return nElt + nIns > nBkt ? make_pair(true, _M_next_bkt(nElt + nIns)) : make_pair(false, (size_t)0); }
+}
+}
+#endif
+
 // ---------------------------------------------------------------- the db image
 #define MAXSLOT 4
 #define PAYLOAD 16                                              // payload bytes per slot
 static const int SLOTSZ = sizeof(Rock::DbCellHeader) + PAYLOAD; // 56
 static const int FD = 3;
 static unsigned NSLOT, NKEY;
+static bool SANE_ONLY; // every slot header passes DbCellHeader::sane() (or is empty), no truncation: the chain/size/duplicate logic only
 static unsigned char image[MAXSLOT * (sizeof(Rock::DbCellHeader) + PAYLOAD)];
 static Rock::DbCellHeader disk[MAXSLOT];   // ghost copy of what was written into the image
 static bool truncated[MAXSLOT];
@@ -116,13 +152,12 @@ bool storeRebuildLoadEntry(int fd, int, MemBuf &buf, StoreRebuildData &)
 
 // swap metadata parser: symbolic verdict; on success the stored key is one of the candidates and the stored size obeys
 // the real function's contract (expectedSize known => swap_file_sz == expectedSize, else any value incl. 0 = unknown)
-static unsigned metaKey;
 bool storeRebuildParseEntry(MemBuf &, StoreEntry &tmpe, cache_key *key, StoreRebuildData &, uint64_t expectedSize)
 {
     tmpe.key = nullptr;
     if (!vf_bool("meta_ok")) return false;
-    metaKey = pickKey("meta_key");
-    memcpy(key, KEYS[metaKey], SQUID_MD5_DIGEST_LENGTH);
+    if (SANE_ONLY) memcpy(key, disk[c57_seekPos >= 0 ? (c57_seekPos - Rock::SwapDir::HeaderSize) / SLOTSZ : 0].key, SQUID_MD5_DIGEST_LENGTH); // the slot header's key
+    else memcpy(key, KEYS[pickKey("meta_key")], SQUID_MD5_DIGEST_LENGTH);
     tmpe.key = key;
     tmpe.swap_file_sz = expectedSize > 0 ? expectedSize : vf_range(0, 2 * PAYLOAD + 2, "meta_sz");
     tmpe.flags = vf_nondet_u16("meta_flags") & ~(1 << KEY_PRIVATE);
@@ -130,6 +165,14 @@ bool storeRebuildParseEntry(MemBuf &, StoreEntry &tmpe, cache_key *key, StoreReb
     return true;
 }
 
+static unsigned keyOf[MAXSLOT];
+// would loadOneSlot() hand this slot to useNewSlot()? (what DbCellHeader::sane() demands, for a completely read slot)
+static bool loadable(const unsigned s)
+{
+    const Rock::DbCellHeader &h = disk[s];
+    return !truncated[s] & (h.firstSlot >= 0) & (h.firstSlot < (int)NSLOT) & (h.nextSlot >= -1) & (h.nextSlot < (int)NSLOT) &
+           (h.version > 0) & (h.payloadSize > 0) & (h.payloadSize <= PAYLOAD);
+}
 static void buildImage()
 {
     memset(image, 0, sizeof(image));
@@ -137,23 +180,37 @@ static void buildImage()
         Rock::DbCellHeader &h = disk[s];
         const unsigned k = pickKey("key");
         h.key[0] = KEYS[k][0]; h.key[1] = KEYS[k][1];
-        h.firstSlot = rangeS(-1, NSLOT, "firstSlot");
-        h.nextSlot = rangeS(-2, NSLOT, "nextSlot");
-        h.payloadSize = vf_range(0, PAYLOAD + 1, "payloadSize");
+        h.firstSlot = SANE_ONLY ? rangeS(0, NSLOT - 1, "firstSlot") : rangeS(-1, NSLOT, "firstSlot");
+        h.nextSlot = SANE_ONLY ? rangeS(-1, NSLOT - 1, "nextSlot") : rangeS(-2, NSLOT, "nextSlot");
+        h.payloadSize = SANE_ONLY ? vf_range(1, PAYLOAD, "payloadSize") : vf_range(0, PAYLOAD + 1, "payloadSize");
         h.entrySize = vf_range(0, 2 * PAYLOAD + 2, "entrySize");
-        h.version = vf_range(0, 2, "version");
+        h.version = SANE_ONLY ? 1 : vf_range(0, 2, "version");
         memcpy(image + s * SLOTSZ, &h, sizeof(h));
-        image[s * SLOTSZ + sizeof(h)] = vf_nondet_u8("payload0"); // rest of the payload is zero: metadata "zeroed" iff this is 0
-        truncated[s] = vf_bool("truncated");
+        image[s * SLOTSZ + sizeof(h)] = SANE_ONLY ? 1 : vf_nondet_u8("payload0"); // rest of the payload is zero: metadata "zeroed" iff this is 0
+        truncated[s] = SANE_ONLY ? false : vf_bool("truncated");
         shortLen[s] = truncated[s] ? vf_range(0, sizeof(h) - 1, "shortLen") : 0;
+        keyOf[s] = k;
     }
+    // KNOWN-FINDING candidate 2: cross-entry chain links. finalizeOrThrow() follows nextSlot links into a slot that was
+    // mapped for a *different* entry which is not finalized yet (slot.mapped() && !slot.finalized() is all it checks).
+    // The thief becomes readable with the foreign slot in its chain; when the victim is validated it is freed, so its
+    // slot enters the free-slot index while still in the thief's chain; the thief's own unreachable slot stays
+    // mapped-but-unfinalized and, with squid -S, validateOneSlot()'s Must() escapes and kills the rebuild; and if the
+    // thief is freed in between (a later duplicate slot), the stolen slot is pushed to the free-slot index twice
+    // (assertion in PageStack). Excluded input class: a loadable slot (not truncated, header sane) whose nextSlot names
+    // a loadable slot whose header key belongs to a different entry (anchor).
+    bool crossLink = false;
+    for (unsigned a = 0; a < NSLOT; ++a)
+        for (unsigned b = 0; b < NSLOT; ++b)
+            crossLink |= loadable(a) & loadable(b) & (disk[a].nextSlot == (int)b) & (KEYS[keyOf[a]][0] % NSLOT != KEYS[keyOf[b]][0] % NSLOT);
+    vf_assume(!crossLink);
 }
 
 // ---------------------------------------------------------------- the check
-static void rebuild(const unsigned nslot, const unsigned nkey)
+static void rebuild(const unsigned nslot, const unsigned nkey, const bool saneOnly = false)
 {
     vf_quiet();
-    NSLOT = nslot; NKEY = nkey;
+    NSLOT = nslot; NKEY = nkey; SANE_ONLY = saneOnly;
     Config.paranoid_hit_validation = std::chrono::nanoseconds(0);
     buildImage();
 
@@ -182,16 +239,53 @@ static void rebuild(const unsigned nslot, const unsigned nkey)
     rb->dbOffset = Rock::SwapDir::HeaderSize + rb->loadingPos * rb->dbSlotSize;
     rb->parts = new Rock::LoadingParts(*sd, rb->resuming);
 
-    rb->loadingSteps();
-    vf_assert(rb->doneLoading(), "loading visits every slot");
-    rb->validationSteps();
-    vf_assert(rb->doneValidating(), "validation visits every entry and slot");
+    bool escaped = false;
+    bool shortAtValidation[MAXSLOT] = {false, false, false, false};
+    try {
+        rb->loadingSteps();
+        vf_assert(rb->doneLoading(), "loading visits every slot");
+        // ghost: entries still loading whose known size exceeds the payload loaded for them (KNOWN-FINDING candidate 1 below)
+        for (unsigned f = 0; f < NSLOT; ++f) {
+            Rock::LoadingEntry le = rb->loadingEntry(f);
+            if (le.state() == Rock::LoadingEntry::leLoading) {
+                const uint64_t known = sd->map->writeableEntry(f).basics.swap_file_sz;
+                shortAtValidation[f] = known > 0 && le.size < known;
+            }
+        }
+        rb->validationSteps();
+        vf_assert(rb->doneValidating(), "validation visits every entry and slot");
+    } catch (...) {
+        escaped = true; // Rebuild::callException() rethrows: an exception leaving a step kills Squid
+    }
 
     // ---- oracle
+    // the chain of every finalized (complete) entry, with slot ids case-split (vf_concretize) so that what follows is concrete
+    struct Chain { bool complete = false, leavesTable = false, cyclic = false; unsigned n = 0; int ids[MAXSLOT]; } chain[MAXSLOT];
+    for (unsigned f = 0; f < NSLOT; ++f) {
+        const Ipc::StoreMap::Anchor &a = sd->map->peekAtEntry(f);
+        Chain &c = chain[f];
+        c.complete = !a.empty() && !a.writing();
+        if (!c.complete) continue;
+        for (int id = (int32_t)vf_concretize((uint32_t)a.start.load()); id >= 0; id = (int32_t)vf_concretize((uint32_t)sd->map->sliceAt(id).next.load())) {
+            if (id >= (int)NSLOT) { c.leavesTable = true; break; }
+            if (c.n == NSLOT) { c.cyclic = true; break; }
+            c.ids[c.n++] = id;
+        }
+    }
+    // ghost: does a finalized entry's chain contain a slot whose db header belongs to another entry? (every slot the
+    // rebuild adds to entry f has a header key that maps to f, so a foreign slot can only come from a nextSlot link)
+    bool crossLinked = false;
+    for (unsigned f = 0; f < NSLOT; ++f)
+        for (unsigned i = 0; chain[f].complete && i < chain[f].n; ++i)
+            if (sd->map->fileNoByKey(reinterpret_cast<const cache_key *>(disk[chain[f].ids[i]].key)) != (sfileno)f) crossLinked = true;
+    vf_assert(!crossLinked, "chain of a finalized entry contains a slot that belongs to another entry");
+    vf_assert(!escaped, "an exception escapes the rebuild steps");
+
     bool inFree[MAXSLOT] = {false, false, false, false};
-    Ipc::Mem::PageId page;
     unsigned nfree = 0;
-    while (sd->freeSlots->pop(page)) {
+    for (;;) {
+        Ipc::Mem::PageId page;
+        if (!sd->freeSlots->pop(page)) break;
         vf_assert(page.number >= 1 && page.number <= NSLOT, "free-slot index holds only slots of this db");
         vf_assert(!inFree[page.number - 1], "slot listed free twice");
         inFree[page.number - 1] = true;
@@ -204,12 +298,14 @@ static void rebuild(const unsigned nslot, const unsigned nkey)
         const Ipc::StoreMap::Anchor *a = sd->map->openForReading(K(k), fileno);
         if (!a) continue;
         ++readable;
-        uint64_t total = 0; unsigned steps = 0;
-        Ipc::StoreMapSliceId id = a->start;
-        vf_assert(id >= 0, "readable entry has a slot chain");
-        while (id >= 0) {
-            vf_assert(id < (int)NSLOT, "chain stays inside the slot table");
-            vf_assert(++steps <= NSLOT, "chain is acyclic");
+        vf_assert(fileno >= 0 && fileno < (int)NSLOT && chain[fileno].complete, "harness: readable entries are finalized entries");
+        const Chain &c = chain[fileno];
+        vf_assert(!c.leavesTable, "chain stays inside the slot table");
+        vf_assert(!c.cyclic, "chain is acyclic");
+        vf_assert(c.n > 0, "readable entry has a slot chain");
+        uint64_t total = 0;
+        for (unsigned i = 0; i < c.n; ++i) {
+            const int id = c.ids[i];
             vf_assert(owner[id] < 0, "slot used by two readable entries (or twice by one)");
             owner[id] = fileno;
             vf_assert(!inFree[id], "slot of a readable entry is also in the free-slot index");
@@ -217,8 +313,12 @@ static void rebuild(const unsigned nslot, const unsigned nkey)
             const Ipc::StoreMap::Slice &slice = sd->map->readableSlice(fileno, id);
             vf_assert(slice.size == disk[id].payloadSize && slice.size > 0, "slice size is the payload size recorded in the slot header");
             total += slice.size;
-            id = slice.next;
         }
+        // KNOWN-FINDING candidate 1: an entry whose inode/metadata states a total size larger than the payload of all its
+        // loaded slots (a partially written or size-corrupted entry) is still loading when validation starts;
+        // finalizeOrThrow() then only compares the chain with the payload seen (le.size), never with the known
+        // swap_file_sz, and makes the short entry readable. Exactly that class is excluded here.
+        vf_assume(!(shortAtValidation[fileno] && total < a->basics.swap_file_sz));
         vf_assert(total == a->basics.swap_file_sz, "payload sizes add up to the entry size");
         vf_observe("total", total);
         sd->map->closeForReading(fileno);
@@ -229,6 +329,7 @@ static void rebuild(const unsigned nslot, const unsigned nkey)
     WITNESS_POINT();
 }
 extern "C" void c57_3slots_2keys(void) { rebuild(3, 2); }
-extern "C" void c57_3slots_collide(void) { rebuild(3, 3); }
 extern "C" void c57_2slots(void) { rebuild(2, 2); }
-extern "C" void c57_4slots_2keys(void) { rebuild(4, 2); }
+extern "C" void c57_3slots_sane(void) { rebuild(3, 2, true); }
+extern "C" void c57_3slots_collide_sane(void) { rebuild(3, 3, true); }
+extern "C" void c57_4slots_1key(void) { rebuild(4, 1, true); }
